@@ -65,7 +65,7 @@ impl Check for C19 {
         mixed_strategy(tier, 8, true)
     }
     fn cases(&self, tier: Tier) -> u32 {
-        tier.pick(3000, 60000)
+        tier.pick(18000, 300000)
     }
     fn run(&self, case: &TextCase, st: &mut Stats) -> Verdict {
         let g0;
@@ -188,7 +188,7 @@ impl Check for C20 {
         mixed_strategy(tier, 8, false)
     }
     fn cases(&self, tier: Tier) -> u32 {
-        tier.pick(3000, 60000)
+        tier.pick(15000, 250000)
     }
     fn run(&self, case: &TextCase, st: &mut Stats) -> Verdict {
         let g = &case.base.grammar;
@@ -303,7 +303,7 @@ impl Check for C21 {
         proptest::strategy::Union::new(vec![mixed_strategy(tier, 0, false), ann(false).boxed(), ann(true).boxed()]).boxed()
     }
     fn cases(&self, tier: Tier) -> u32 {
-        tier.pick(6000, 100000)
+        tier.pick(30000, 400000)
     }
     fn run(&self, case: &TextCase, st: &mut Stats) -> Verdict {
         let g = &case.base.grammar;
